@@ -13,6 +13,10 @@ Sections (DESIGN.md 5/C04):
                    loops calling len / [j], together with X[::-1] and with a flat reshape, two passes): each must
                    visit the units along the first axis completely and in order, independently of the others;
   apply-layouts    the apply section again on a smaller shape set with X and / or T built from non-C-contiguous arrays;
+  index-forms      engine P over (class, shape, index with an Ellipsis): X[index] and X[index] = value select / replace the
+                   units NumPy indexing selects on the composite shape, bound to the explicit spelling of the same index;
+  commute          engine P over (class, shape_A, shape_B, mode): A.commute(B, broadcast=mode) is the (broadcast / full) table of the
+                   answers on the pairs of units;
   stack-dtypes     engine P over (class, dtype sequence, form): a composite built from an iterable of objects whose
                    coordinate arrays have DIFFERENT dtypes holds, at index i, the values of the i-th object.
 Units are pairwise distinct, so that a permuted or transposed axis cannot pass.
@@ -349,7 +353,7 @@ VEC_OPS = (["coords/%s" % m for m in hyp.MODELS] +
             "segment", "segment/circle/poincare", "segment/circle/halfspace", "polygon/H", "polygon/P",
             "geodesic/circle/poincare", "geodesic/circle/halfspace",
             "fixed_point/lox", "fixed_point/mixed", "fixed_point_pair/lox", "fixed_point_pair/mixed",
-            "sl2_irrep/2", "sl2_irrep/3", "sl2_irrep/4", "sl2_to_so21", "sl2_iso"])
+            "sl2_irrep/2", "sl2_irrep/3", "sl2_irrep/4", "sl2_to_so21", "sl2_iso", "sl2_to_sl2", "sl2_o_to_pgl"])
 DIM2_ONLY = ("segment/circle", "geodesic/circle", "fixed_point", "sl2_")
 
 
@@ -489,6 +493,27 @@ def case_vec(case):
             report(op, lie.sl2_irrep(A.copy(), d), [lie.sl2_irrep(m.copy(), d) for m in M], 1e-12)
         elif op == "sl2_to_so21":
             report(op, lie.sl2_to_so21(A.copy()), [lie.sl2_to_so21(m.copy()) for m in M], 1e-12)
+        elif op == "sl2_to_sl2":
+            # Isometry.to_sl2() of a composite = the 2x2 matrix to_sl2() returns on each unit (which is +-M_k);
+            # shape and entries are bound to the unit answers of the same library
+            units = [np.asarray(H.sl2_iso(m.copy()).to_sl2()) for m in M]
+            for k, (u, m) in enumerate(zip(units, M)):
+                assert u.shape == (2, 2) and (close(u, m) or close(u, -m)), "unit to_sl2 (owned by C17) is not +-M for %r" % m
+            whole = np.asarray(H.sl2_iso(A.copy()).to_sl2())
+            if tuple(whole.shape) != shape + (2, 2):
+                v.append(V("vectorised/to_sl2/shape", "Isometry.to_sl2() of a composite of shape %r has shape %r, expected %r" % (shape, whole.shape, shape + (2, 2))))
+            else:
+                report("to_sl2", whole, units)
+        elif op == "sl2_o_to_pgl":
+            # lie.o_to_pgl on the array of the images, every second one negated (-S is in O(2,1) too and takes the other sign branch)
+            Ss = [(-1.0) ** k * np.asarray(lie.sl2_to_so21(m.copy())) for k, m in enumerate(M)]
+            units = [np.asarray(lie.o_to_pgl(s_.copy())) for s_ in Ss]
+            whole = np.asarray(lie.o_to_pgl(compose(Ss, shape).copy()))
+            t += N
+            if tuple(whole.shape) != shape + (2, 2):
+                v.append(V("vectorised/o_to_pgl/shape", "lie.o_to_pgl of an array of shape %r has shape %r, expected %r" % (shape + (3, 3), whole.shape, shape + (2, 2))))
+            else:
+                report("o_to_pgl", whole, units)
         else:
             whole = H.sl2_iso(A.copy())
             if type(whole) is not H.Isometry or tuple(whole.shape) != shape:
@@ -729,6 +754,230 @@ def check_units(cls, obj, model, n, seed, after):
 
 
 # ------------------------------------------------------------------------------------------------
+# section index-forms: every NumPy form of a basic index on the composite shape, with and without Ellipsis
+# ------------------------------------------------------------------------------------------------
+def _dec_index(tokens):
+    """JSON index -> Python index: "..." Ellipsis, int, ["s", a, b, c] a slice, ["l", ...] an index list; a list of
+    tokens is a tuple index, a bare token is used as it is."""
+    def one(tk):
+        if tk == "...":
+            return Ellipsis
+        if isinstance(tk, list) and tk and tk[0] == "s":
+            return slice(tk[1], tk[2], tk[3])
+        if isinstance(tk, list) and tk and tk[0] == "l":
+            return [int(x) for x in tk[1:]]
+        return int(tk)
+    if isinstance(tokens, dict):
+        return one(tokens["bare"])
+    return tuple(one(tk) for tk in tokens)
+
+
+def index_forms(shape):
+    """Pairs (index with an Ellipsis, the explicit index NumPy defines it to be on an array of this shape)."""
+    shape = list(shape)
+    r = len(shape)
+    full = ["s", None, None, None]
+    if r == 0:
+        return [({"bare": "..."}, []), (["..."], [])]
+    m, f = shape[-1], shape[0]
+    out = [({"bare": "..."}, [full] * r), (["..."], [full] * r)]
+    lasts = [0, -1, ["s", 1, None, None], ["s", None, None, -1], ["s", 0, 1, None], ["l", 0, m - 1]]
+    for j in lasts:
+        out.append((["...", j], [full] * (r - 1) + [j]))
+    for i in sorted({0, f - 1}):
+        out.append(([i, "..."], [i]))
+        if r >= 2:
+            for j in (0, -1, ["s", None, None, -1]):
+                out.append(([i, "...", j], [i] + [full] * (r - 2) + [j]))
+    out.append(([["s", 0, 1, None], "..."], [["s", 0, 1, None]]))
+    if r >= 2:
+        a = shape[-2]
+        out.append((["...", a - 1, 0], [full] * (r - 2) + [a - 1, 0]))
+        out.append((["...", ["s", 0, 1, None], m - 1], [full] * (r - 2) + [["s", 0, 1, None], m - 1]))
+    lab = S.labels(shape)
+    # a selection without units (1: on an axis of size 1) is not a composite of the quantified shapes
+    return [(e, x) for (e, x) in out if np.asarray(lab[_dec_index(x)]).size > 0]
+
+
+def _same_object(a, b):
+    if type(a) is not type(b) or tuple(a.shape) != tuple(b.shape) or not close(a.proj_data, b.proj_data, 1e-12):
+        return False
+    if (a.aux_data is None) != (b.aux_data is None):
+        return False
+    return a.aux_data is None or close(a.aux_data, b.aux_data, 1e-9)
+
+
+def case_index(case):
+    """X[index] and X[index] = value for one (class, shape, Ellipsis form): the Ellipsis stands for composite axes
+    (NumPy semantics on the composite shape), so the result is bound to the explicit spelling and both to the array
+    of unit labels.  Assigned values: a fresh unit (broadcast over the selection) and a fresh composite of the
+    shape of the selection."""
+    cls, n, shape, seed = case["cls"], case["n"], tuple(case["shape"]), case["seed"]
+    ell, exp = _dec_index(case["ellipsis"]), _dec_index(case["explicit"])
+    model = S.labels(shape)
+    sub = np.asarray(model[exp])
+    assert sub.shape == np.asarray(model[ell]).shape and np.array_equal(sub, model[ell]), "HARNESS: index pair"
+    v, t = [], 0
+    form = "ellipsis-last" if (isinstance(ell, tuple) and ell[-1] is Ellipsis) or ell is Ellipsis else "ellipsis-then-index"
+    results = {}
+    for how, idx in (("explicit", exp), ("ellipsis", ell)):
+        X, _ = build_X(cls, n, shape, seed)
+        snap = np.array(X.proj_data)
+        tag = how if how == "explicit" else form
+        try:
+            Y = X[idx]
+        except Exception as e:  # noqa: BLE001 - reported as a violation of this sub-check
+            v.append(V("index/getitem/%s/raises" % tag, "%s of composite shape %r: X[%s] raises %s: %s" % (cls, shape, case[how], type(e).__name__, str(e)[:200])))
+            continue
+        t += 1
+        if type(Y) is not type(X):
+            v.append(V("index/getitem/%s/type" % tag, "%s of shape %r: X[%s] is a %s" % (cls, shape, case[how], type(Y).__name__)))
+            continue
+        bad = check_units(cls, Y, sub, n, seed, "getitem")
+        if bad:
+            v.append(V("index/getitem/%s" % tag, "%s of composite shape %r: X[%s] is not the array of units NumPy indexing selects (labels %r): %s" % (
+                cls, shape, case[how], sub.tolist(), bad[0]["msg"][:300])))
+        if not np.array_equal(snap, X.proj_data):
+            v.append(V("index/getitem/%s/mutates" % tag, "%s: X[%s] changed X" % (cls, case[how])))
+        results[how] = Y
+    if len(results) == 2 and not v and not _same_object(results["explicit"], results["ellipsis"]):
+        v.append(V("index/getitem/%s/differs-from-explicit" % form, "%s of composite shape %r: X[%s] differs from X[%s]" % (cls, shape, case["ellipsis"], case["explicit"])))
+    # item assignment
+    N = int(model.size)
+    for vkind in ("unit", "composite"):
+        if vkind == "composite" and sub.ndim == 0:
+            continue
+        after = {}
+        nbad = 0
+        for how, idx in (("explicit", exp), ("ellipsis", ell)):
+            tag = how if how == "explicit" else form
+            X, _ = build_X(cls, n, shape, seed)
+            if vkind == "unit":
+                val, _ = build_X(cls, n, (), seed, offset=N + 5)
+                new = np.full(sub.shape, N + 5)
+            else:
+                val, _ = build_X(cls, n, tuple(sub.shape), seed, offset=N + 5)
+                new = S.labels(sub.shape, N + 5)
+            want = np.array(model)
+            want[exp] = new
+            try:
+                X[idx] = val
+            except Exception as e:  # noqa: BLE001 - reported as a violation of this sub-check
+                nbad += 1
+                v.append(V("index/setitem/%s/raises" % tag, "%s of composite shape %r: X[%s] = <%s> raises %s: %s" % (
+                    cls, shape, case[how], vkind, type(e).__name__, str(e)[:200])))
+                continue
+            t += 1
+            bad = check_units(cls, X, want, n, seed, "setitem")
+            if bad:
+                nbad += 1
+                v.append(V("index/setitem/%s/%s" % (tag, vkind), "%s of composite shape %r: after X[%s] = <%s> the units are not those of the label array (%r): %s" % (
+                    cls, shape, case[how], vkind, want.tolist(), bad[0]["msg"][:300])))
+            after[how] = X
+        if len(after) == 2 and not nbad and not _same_object(after["explicit"], after["ellipsis"]):
+            v.append(V("index/setitem/%s/differs-from-explicit" % form, "%s of composite shape %r: X[%s] = v and X[%s] = v leave different objects" % (
+                cls, shape, case["ellipsis"], case["explicit"])))
+    return {"v": v[:6], "t": t, "o": repr((cls, shape, case["ellipsis"], sub.shape)), "nt": N > 1}
+
+
+# ------------------------------------------------------------------------------------------------
+# section commute: the vectorised predicate Transformation.commute(other, broadcast=...)
+# ------------------------------------------------------------------------------------------------
+def commute_pool(cls, n):
+    """Row matrices from three commuting families (so that tables mix True and False) and one scalar-free generic
+    element; P: integer matrices (diagonal / powers of a rotation by 90 degrees / powers of a unipotent), H: rotations
+    about one axis / boosts along one axis of SO(n,1)."""
+    m = n + 1
+    if cls == "P.Transformation":
+        def dg(*d):
+            return np.diag([float(x) for x in (list(d) + [1] * m)[:m]])
+        R = np.eye(m)
+        R[:2, :2] = [[0.0, -1.0], [1.0, 0.0]]
+        U = np.eye(m) + np.diag([1.0] * (m - 1), 1)
+        fam = [[dg(1, 2, 3), dg(2, 5, 7), dg(3, 1, 2), dg(5, 3, 4)],
+               [R, R @ R, R @ R @ R, 2.0 * R],
+               [U, U @ U, U @ U @ U, np.linalg.inv(U)]]
+    else:
+        def rot(th):
+            r = np.eye(m)
+            r[1, 1] = r[2, 2] = math.cos(th)
+            r[1, 2], r[2, 1] = -math.sin(th), math.sin(th)
+            return r
+
+        def boost(s_):
+            r = np.eye(m)
+            r[0, 0] = r[1, 1] = math.cosh(s_)
+            r[0, 1] = r[1, 0] = math.sinh(s_)
+            return r
+
+        def boost2(s_):
+            r = np.eye(m)
+            r[0, 0] = r[2, 2] = math.cosh(s_)
+            r[0, 2] = r[2, 0] = math.sinh(s_)
+            return r
+        fam = [[rot(0.3), rot(1.1), rot(-0.7), rot(2.0)], [boost(0.2), boost(0.5), boost(-0.4), boost(0.9)],
+               [boost2(0.3), boost2(0.6), boost2(-0.5), boost2(1.0)]]
+    return fam
+
+
+def commute_units(cls, n, N, phase):
+    fam = commute_pool(cls, n)
+    return [fam[(k + phase) % 3][((k + phase) // 3 + phase) % 4] for k in range(N)]
+
+
+def case_commute(case):
+    """A.commute(B, broadcast=mode) for composites A, B: elementwise = NumPy broadcasting of the composite shapes,
+    pairwise = the full table of the per-pair answers.  The per-pair answer is decided by the harness (the two
+    products are equal / differ by more than 1e-3) and bound to the library's answer on the two units.  The property
+    fixes the axis order of a pairwise table for T.apply(X) only, so for commute either order (axes of A first, or
+    axes of B first) is accepted."""
+    from geometry_tools import projective as P, hyperbolic as H
+    cls, n, sA, sB, mode = case["cls"], case["n"], tuple(case["sA"]), tuple(case["sB"]), case["mode"]
+    C = P.Transformation if cls == "P.Transformation" else H.Isometry
+    NA, NB = S.size(sA), S.size(sB)
+    UA, UB = commute_units(cls, n, NA, 0), commute_units(cls, n, NB, 1)
+    A, B = C(compose(UA, sA).copy()), C(compose(UB, sB).copy())
+    table = np.zeros((NA, NB), dtype=bool)
+    for i, a in enumerate(UA):
+        for j, b in enumerate(UB):
+            d = float(np.max(np.abs(a @ b - b @ a)))
+            assert d < 1e-12 or d > 1e-3, "HARNESS: ambiguous pair"
+            table[i, j] = d < 1e-12
+    v, t = [], 0
+    # the units, one pair at a time (the answer every entry is bound to)
+    for i in range(NA):
+        for j in range(NB):
+            got = C(UA[i].copy()).commute(C(UB[j].copy()))
+            t += 1
+            if np.shape(got) != () or bool(got) != bool(table[i, j]):
+                v.append(V("commute/unit-pair", "%s: a.commute(b) = %r for a = %r, b = %r, which %scommute" % (cls, got, UA[i].tolist(), UB[j].tolist(), "" if table[i, j] else "do not ")))
+                return {"v": v, "t": t, "o": "unit", "nt": True}
+    table = table.reshape(sA + sB)
+    try:
+        got = np.asarray(A.commute(B, broadcast=mode))
+    except Exception as e:  # noqa: BLE001 - reported as a violation of this sub-check
+        v.append(V("commute/%s/raises" % mode, "%s: composites of shape %r and %r: commute(broadcast=%r) raises %s: %s" % (cls, sA, sB, mode, type(e).__name__, str(e)[:200])))
+        return {"v": v, "t": t + 1, "o": "raises", "nt": True}
+    t += 1
+    if mode == "elementwise":
+        rs = S.broadcast_shape(sA, sB)
+        exp = np.zeros(rs, dtype=bool)
+        for idx in itertools.product(*[range(x) for x in rs]):
+            exp[idx] = table[S._restrict(idx, sA) + S._restrict(idx, sB)]
+        cands = [exp]
+    else:
+        ra, rb = len(sA), len(sB)
+        cands = [table, table.transpose(tuple(range(ra, ra + rb)) + tuple(range(ra)))]
+    if not any(got.shape == e.shape for e in cands):
+        v.append(V("commute/%s/shape" % mode, "%s: composites of shape %r and %r: the result has shape %r, expected %s" % (
+            cls, sA, sB, got.shape, " or ".join(repr(e.shape) for e in cands))))
+    elif not any(got.shape == e.shape and np.array_equal(got.astype(bool), e) for e in cands):
+        v.append(V("commute/%s/table" % mode, "%s: composites of shape %r and %r: commute(broadcast=%r) =\n%r\nbut the pairs of units give (axes of self first)\n%r" % (
+            cls, sA, sB, mode, got, cands[0])))
+    return {"v": v, "t": t, "o": repr((cls, sA, sB, mode, int(table.sum()))), "nt": NA * NB > 1}
+
+
+# ------------------------------------------------------------------------------------------------
 # section stack-dtypes
 # ------------------------------------------------------------------------------------------------
 STACK_CLASSES = ["P.Point", "P.PointPair", "P.Polygon", "P.Transformation",
@@ -903,6 +1152,30 @@ def run(ctx):
                     domains={"classes": APPLY_CLASSES, "dimension": [2], "modes": S.MODES, "shapes of X and T": LS,
                              "memory layouts": LAYOUTS,
                              "(layout of X's array, layout of T's array)": "one of them C and the other not, or both the same non-C layout"})
+    if want("index"):
+        ISH = [[], [1], [3], [2, 3], [3, 1], [2, 1, 3]] if q else [[], [1], [3], [2, 3], [3, 1], [1, 2], [2, 1, 3], [3, 2, 2]]
+        ctx.assume("an index containing an Ellipsis is legal for a composite (the object is an array of its units): the Ellipsis "
+                   "stands for composite axes only, as NumPy defines it on an array of the composite shape; indices are basic "
+                   "(integers, slices) plus one index list on the last axis; the coordinate / vertex axes of a unit are never indexed")
+        cases = [{"cls": c, "n": 3 if c.startswith("P.") else 2, "shape": sh, "seed": ctx.seed, "ellipsis": e, "explicit": x}
+                 for c in HIST_CLASSES for sh in ISH for (e, x) in index_forms(sh)]
+        ctx.product("index-forms", "checks.c04:case_index", cases, chunk=16,
+                    domains={"classes": HIST_CLASSES, "composite shapes": ISH,
+                             "index forms": "X[...], X[..., j], X[..., a:b], X[..., ::-1], X[..., [0, m-1]], X[i, ...], X[i, ..., j], X[0:1, ...], "
+                                            "X[..., i, j], X[..., 0:1, j], each paired with its explicit spelling",
+                             "operations": ["X[index]", "X[index] = unit", "X[index] = composite of the selected shape"],
+                             "demand": "result = the units NumPy indexing selects from the label array; Ellipsis form == explicit form"})
+    if want("commute"):
+        CS = [[], [1], [2], [3], [2, 3], [3, 1], [1, 3]] if q else [[], [1], [2], [3], [2, 3], [3, 1], [1, 3], [2, 2], [2, 1, 3]]
+        ctx.assume("Transformation.commute(other, broadcast=) is a vectorised operation on composites with the broadcast modes of apply "
+                   "('elementwise' default, 'pairwise'): elementwise answers follow NumPy broadcasting, the pairwise answer is the full table of "
+                   "the per-pair answers; the property fixes the axis order of a pairwise result for T.apply(X) only, so both orders of the "
+                   "table are accepted; pairs are exactly commuting (error < 1e-12) or far from commuting (> 1e-3), commute's tol is 1e-8")
+        cases = [{"cls": c, "n": 2, "sA": a, "sB": b, "mode": m} for c in ("P.Transformation", "H.Isometry") for m in ("elementwise", "pairwise")
+                 for a in CS for b in CS if m == "pairwise" or S.broadcast_shape(a, b) is not None]
+        ctx.product("commute", "checks.c04:case_commute", cases, chunk=8,
+                    domains={"classes": ["P.Transformation", "H.Isometry"], "shapes of A and B": CS, "modes": ["elementwise (broadcast-compatible pairs)", "pairwise"],
+                             "units": "three commuting families, consecutive units from different families"})
     if want("stack"):
         pats = [list(p) for p in itertools.product(DTYPES, repeat=2)] + \
                [list(p) for p in itertools.product(DTYPES[:3], repeat=3)]
